@@ -29,6 +29,7 @@ import (
 	"sync"
 	"sync/atomic"
 	"time"
+	_ "time/tzdata"
 
 	"github.com/cinar/indicator/v2/asset"
 	"github.com/cinar/indicator/v2/backtest"
@@ -42,8 +43,17 @@ func init() { slog.SetDefault(quiet) }
 
 var epoch2000 = time.Date(2000, 1, 1, 0, 0, 0, 0, time.UTC)
 
-func dayToTime(d int) time.Time { return epoch2000.AddDate(0, 0, d) }
-func timeToDay(t time.Time) int { return int(t.Sub(epoch2000).Hours() / 24) }
+// dates are day numbers: by default whole UTC days from 2000-01-01; the "memtz" repositories use local midnights in a
+// zone that observes daylight saving (2023-03-01 America/New_York, so that day 11 is the 23-hour spring-forward day)
+var dateEpoch = epoch2000
+
+func dayToTime(d int) time.Time { return dateEpoch.AddDate(0, 0, d) }
+func timeToDay(t time.Time) int {
+	t = t.In(dateEpoch.Location())
+	a := time.Date(t.Year(), t.Month(), t.Day(), 0, 0, 0, 0, time.UTC)
+	b := time.Date(dateEpoch.Year(), dateEpoch.Month(), dateEpoch.Day(), 0, 0, 0, 0, time.UTC)
+	return int(math.Round(a.Sub(b).Hours() / 24))
+}
 
 // snapshot with a serial number hidden in its prices, so that every appended snapshot is distinguishable
 func mkSnap(day, serial int) *asset.Snapshot {
@@ -182,7 +192,7 @@ var dbCounter atomic.Int64
 
 func newRepo(impl string) (asset.Repository, func(), error) {
 	switch impl {
-	case "mem":
+	case "mem", "memtz":
 		return asset.NewInMemoryRepository(), func() {}, nil
 	case "fs":
 		dir, err := os.MkdirTemp("", "ivrepo")
@@ -978,6 +988,13 @@ func dumpRepo(r asset.Repository, names []string) string {
 func runSync(args []string) string {
 	workers, _ := strconv.Atoi(args[0])
 	defDay, _ := strconv.Atoi(args[1])
+	dateEpoch = epoch2000
+	if args[5] == "memtz" {
+		if loc, err := time.LoadLocation("America/New_York"); err == nil {
+			dateEpoch = time.Date(2023, 3, 1, 0, 0, 0, 0, loc)
+		}
+	}
+	defer func() { dateEpoch = epoch2000 }()
 	return withTimeout(func() string {
 		serial := 0
 		src := asset.NewInMemoryRepository()
